@@ -51,6 +51,8 @@ ESCAPING_LAST = {('Try', 'body')}
 
 
 class ShapeBuilder(object):
+    patterns = False       # generate match_case / pattern nodes (only when the extractor has visit methods for them)
+
     def __init__(self, choices=None, profile='max'):
         self.choices = choices or {}
         self.profile = profile
@@ -102,6 +104,15 @@ class ShapeBuilder(object):
             return SymNode(cls, path, 'expr', {'elts': elts, 'ctx': self.ctx('Store', path)})
         raise AnalysisError('unknown target kind %s' % kind)
 
+    def pattern(self, p):
+        """A pattern: an opaque one, or (one level deep) a capture, star or mapping pattern of its own."""
+        if p.count('.pattern') + p.count('.patterns') > 1:
+            return SymNode(None, p, 'pattern')
+        kind = self.pick((p, 'kind'), ['MatchAs', 'MatchStar', 'MatchMapping', 'MatchSequence', 'opaque'])
+        if kind == 'opaque':
+            return SymNode(None, p, 'pattern')
+        return self.node(kind, p)
+
     def node(self, cls, path):
         flds = {}
         for fld in G.fields(cls):
@@ -120,8 +131,15 @@ class ShapeBuilder(object):
     def field(self, cls, fld, p):
         sort, mult = fld.sort, fld.mult
         key = (p,)
-        if sort in G.OUT_OF_DOMAIN_SORTS:
+        if sort in G.OUT_OF_DOMAIN_SORTS and not (self.patterns and sort in ('pattern', 'match_case')):
             return [] if mult == '*' else None
+        if sort == 'pattern':
+            if mult == '1':
+                return self.pattern(p)
+            if mult == '?':
+                return self.pattern(p) if self.pick(key + ('present',), [True, False]) else None
+            k = self.pick(key + ('len',), [2, 1, 0] if cls not in ('MatchOr',) else [2])
+            return [self.pattern('%s[%d]' % (p, i)) for i in range(k)]
         if sort == 'expr':
             if (cls, fld.name) in TARGET_FIELDS:
                 kinds = (['Name'] if (cls, fld.name) in ONLY_NAME_TARGET else
@@ -138,7 +156,12 @@ class ShapeBuilder(object):
             if mult == '?':
                 return self.opaque('expr', p) if self.pick(key + ('present',), [True, False]) else None
             k = self.pick(key + ('len',), self.lens(cls, fld))
-            return [self.opaque('expr', '%s[%d]' % (p, i)) for i in range(k)]
+            out = [self.opaque('expr', '%s[%d]' % (p, i)) for i in range(k)]
+            # a default value may itself be a function with parameters of its own
+            if (cls, fld.name) == ('arguments', 'defaults') and k >= 1 and p.count('.defaults') == 1 and \
+                    self.pick(key + ('first',), ['opaque', 'Lambda']) == 'Lambda':
+                out[0] = self.node('Lambda', '%s[0]' % p)
+            return out
         if sort == 'stmt':
             if mult == '*':
                 k = self.pick(key + ('len',), self.lens(cls, fld))
@@ -209,9 +232,17 @@ def _split_top(s):
     return out
 
 
-def shapes_for(cls, tier='quick'):
+def shapes_for(cls, tier='quick', patterns=False):
     """Base (max) shape, min shape, and one-at-a-time variations; the thorough tier adds all pairs of variations
     (two dimensions varied together) and, around the min shape, one-at-a-time variations towards the max."""
+    ShapeBuilder.patterns = patterns
+    try:
+        return _shapes_for(cls, tier)
+    finally:
+        ShapeBuilder.patterns = False
+
+
+def _shapes_for(cls, tier):
     base = ShapeBuilder({}, 'max')
     root = base.node(cls, 'node')
     out = [('max', root, base)]
@@ -608,6 +639,7 @@ class Extractor(object):
             rec['cls'] = n.cls.name
             ident = a.get('name')
             rec['ident'] = str(ident) if isinstance(ident, str) else repr(ident)
+            rec['ident_is_str'] = isinstance(ident, str)
             rec['ident_path'] = getattr(ident, 'path', None)
             rec['ident_derived'] = getattr(ident, 'derived', None)
             rec['location'] = a.get('location')
@@ -663,5 +695,11 @@ def all_summaries(repo, tier='quick'):
             if cls in G.OUT_OF_DOMAIN_NODES:
                 continue
             out[cls] = [ex.summarise(cls, v, root, b) for v, root, b in shapes_for(cls, getattr(repo, 'tier', tier))]
+        # match statements are outside the domain of the name-resolution properties, but not of C08 / C11 / C17: once the
+        # extractor has visit methods for them, they are summarised like every other construct
+        pat = sorted(n for n, srt in G.SORT_OF.items() if srt == 'pattern' and n in G.NODE_FIELDS)
+        if any(ex.vis_cls.lookup('visit_' + c) is not None for c in ['Match'] + pat):
+            for cls in ['Match'] + pat:
+                out[cls] = [ex.summarise(cls, v, root, b) for v, root, b in shapes_for(cls, 'quick', patterns=True)]
         return out
     return repo.memo('e1-summaries', build)
